@@ -545,11 +545,11 @@ def spellings(base, rewrites):
 
 NUMS = [0, 1, 2, -1, 1.0, 2.5, 1.005, True, False, 7]
 STRS = ["1", "ab", "abc", "", "b"]
-SP_KEYS = ["a", "b", "n", "l"]
-DOC_KEYS = ["a", "d", "s"]
+SP_KEYS = ["a", "b", "n", "l", "spec"]  # "spec" / "docs": names that merely start like a namespace
+DOC_KEYS = ["a", "d", "s", "docs"]
 GROUP_KEYS = [
     "a", "b", "l", "n", "sp.a", "sp.b", "doc.a", "doc.s", "n.x", "sp.n.x", "doc.d.y", "doc.d", "zz", "doc.zz", "sp.zz",
-    "n.x", "sp.n.x", "doc.d.y", "a", "doc.a",
+    "n.x", "sp.n.x", "doc.d.y", "a", "doc.a", "spec.x", "sp.spec.x", "doc.docs.y", "spec",
 ]
 
 
@@ -568,7 +568,7 @@ def corpora7(draw, max_jobs=6):
             if draw(st.integers(0, 3)) == 0:
                 continue
             v = draw(st.sampled_from(pools[k]))
-            if k == "n" and draw(st.integers(0, 5)) != 0:
+            if k in ("n", "spec") and draw(st.integers(0, 5)) != 0:
                 v = {"x": v} if not isinstance(v, dict) else {"x": 1, "y": v}
             sp[k] = v
         if draw(st.integers(0, 3)) != 0:
@@ -577,7 +577,7 @@ def corpora7(draw, max_jobs=6):
                 if draw(st.integers(0, 3)) == 0:
                     continue
                 v = draw(st.sampled_from(pools["doc." + k]))
-                if k == "d" and draw(st.integers(0, 5)) != 0:
+                if k in ("d", "docs") and draw(st.integers(0, 5)) != 0:
                     v = {"y": v} if not isinstance(v, dict) else {"y": 2, "x": v}
                 doc[k] = v
         jobs.append({"sp": sp, "doc": doc})
